@@ -1685,7 +1685,8 @@ class LSCycles(Command):
 
     def _as_str(self) -> str:
         return '{} {} {} {}'.format('CGLS' if self.cgls else 'L.S.', self._cycles,
-                                    self._nrf if self._nrf else '', self._nextra if self._nextra else '').strip()
+                                    self._nrf if self._nrf != '' else '',
+                                    self._nextra if self._nextra != '' else '').strip()
 
     def __repr__(self) -> str:
         return self._as_str()
